@@ -325,6 +325,34 @@ let dispatch (fn : string) (args : sx list) : sx =
     let s0 = (match st with L [a; b; c; d] -> { p_stdout = to_nat a; p_stderr = to_nat b; p_filters = to_nat c; p_showwarning = to_nat d; p_cap_text = [] } | _ -> raise (Bad "proc")) in
     let (s1, logged) = run_proc s0 (to_list (to_list to_op) bodies) in
     L [of_nat s1.p_stdout; of_nat s1.p_stderr; of_nat s1.p_filters; of_nat s1.p_showwarning; of_lines logged]
+  (* Isolation *)
+  | "hs_history", [runs] ->
+    (* runs: list of (default_state, parts) with parts = list of effect lists; the process-wide defaults are
+       SKIP=false, REQUIRES=cell 0.  Answer, per run and per update: the REQUIRES the state reads
+       (overlay first) or `raised`; and after every run the contents of the default cell *)
+    let to_eff = function
+      | L [A "assign"; inl; k; b] -> HE_assign (to_bool inl, to_str k, to_bool b)
+      | L [A "set"; inl; add; k; a] -> HE_set (to_bool inl, to_bool add, to_str k, to_str a)
+      | _ -> raise (Bad "heffect") in
+    let defaults = [(k_SKIP, HBool false); (k_REQUIRES, HSet O)] in
+    let read_req h st =
+      (match hget k_REQUIRES st.hs_inline with
+       | Some (HSet c) -> of_lines (hread h c)
+       | _ -> (match hget k_REQUIRES st.hs_global with Some (HSet c) -> of_lines (hread h c) | _ -> A "none")) in
+    let h = ref [[]] in
+    let out = List.map (fun r ->
+        let (ds, parts) = (match r with L [ds; ps] -> (to_list (to_pair to_str to_bool) ds, to_list (to_list to_eff) ps) | _ -> raise (Bad "run")) in
+        let (h1, st0) = hs_init !h defaults ds in
+        let cur = ref (h1, st0) in
+        let alive = ref true in
+        let tr = List.map (fun es ->
+            if not !alive then A "dead" else
+            (match hs_update (fst !cur) (snd !cur) es with
+             | Some (h2, st2) -> cur := (h2, st2); read_req h2 st2
+             | None -> alive := false; A "raised")) parts in
+        h := fst !cur;
+        L [L tr; of_lines (hread !h O)]) (to_list (fun x -> x) runs) in
+    L out
   | _ -> raise (Bad ("unknown function " ^ fn))
 
 
